@@ -97,8 +97,49 @@ def linklocal(rng):
     return "fe80::%x" % rng.randint(1, 0xffff) if rng.random() < 0.7 else "fe80:0:0:0:%x:%x:%x:%x" % tuple(rng.randint(0, 0xffff) for _ in range(4))
 
 
+# ---------------------------------------------------------------------------------- numeric extremes
+# Every numeric field of every directive gets values around the powers of two at which a C integer
+# type ends (2^8, 2^16, 2^31, 2^32, 2^63, 2^64), multiples of those plus a residue that lies INSIDE
+# the field's valid range [lo, hi] (so that a value narrowed before its range check lands in the
+# range), negative numbers, leading zeros, a plus sign, trailing garbage and very long digit strings.
+WRAPS_AT = [2 ** 8, 2 ** 16, 2 ** 32, 2 ** 64]
+
+
+def num_extreme(rng, lo, hi, digits_only=False):
+    r = rng.randint(lo, hi) if rng.random() < 0.85 else 0          # 0: a wrap onto zero, which many fields treat specially
+    c = rng.random()
+    if c < 0.22:
+        v = 2 ** rng.choice([8, 16, 31, 32, 63, 64]) + rng.choice([-1, 0, 1])
+    elif c < 0.55:
+        v = rng.choice(WRAPS_AT) * rng.randint(1, 3) + r
+    elif c < 0.65:
+        v = hi + rng.choice([1, 2, 10, 100, 1000])
+    elif c < 0.72:
+        v = 2 ** 64 * rng.randint(10 ** 5, 10 ** rng.choice([6, 30, 280])) + r         # very long, wraps to r
+    elif c < 0.78:
+        return "0" * rng.choice([1, 2, 8, 9, 40]) + str(r)
+    elif digits_only:
+        v = rng.choice([hi + 1, 255, 256 + r, 999, 1000 + r, 10 ** 9 + r, 10 ** 10 + r])
+    elif c < 0.86:
+        return "-" + str(rng.choice([1, max(r, 1), 256 - r if r else 256, 2 ** 31, 2 ** 31 + 1, 2 ** 32 - r if r else 2 ** 32]))
+    elif c < 0.91:
+        return "+" + str(r)
+    else:
+        return str(r) + rng.choice(["x", ".", ".0", "e1", "-", "+1", "\x01"])
+    return str(v)
+
+
+def int_extreme(rng, lo, hi):
+    """the same for a C int passed through struct ares_options"""
+    r = rng.randint(lo, hi)
+    return rng.choice([255, 256, 257, 256 + r, 512 + r, 65535, 65536, 65536 + r, 131072 + r, 2 ** 31 - 1, 2 ** 31 - 2, -(2 ** 31), -(2 ** 31) + 1,
+                       -1, -r if r else -1, -256 + r, hi + 1, lo - 1])
+
+
 def port(rng):
-    return rng.choice([53, 53, 5353, 1, 65535, 0, 65536, 99999, 100000, 853, rng.randint(1, 65535)])
+    if rng.random() < 0.2:
+        return num_extreme(rng, 1, 65535)
+    return str(rng.choice([53, 53, 5353, 1, 65535, 0, 65536, 99999, 100000, 853, rng.randint(1, 65535)]))
 
 
 def server_token(rng, valid_only=False):
@@ -107,35 +148,35 @@ def server_token(rng, valid_only=False):
     if c < 0.30:
         t = ipv4(rng)
         if rng.random() < 0.3:
-            t += ":%d" % port(rng)
+            t += ":%s" % port(rng)
         return t
     if c < 0.40:
-        return "[%s]:%d" % (ipv4(rng), port(rng))
+        return "[%s]:%s" % (ipv4(rng), port(rng))
     if c < 0.55:
         return ipv6_text(rng)
     if c < 0.70:
         t = "[%s]" % ipv6_text(rng)
         if rng.random() < 0.7:
-            t += ":%d" % port(rng)
+            t += ":%s" % port(rng)
         return t
     if c < 0.82:
         ifc = rng.choice(IFACES) if (valid_only or rng.random() < 0.8) else rng.choice(BAD_IFACES)
         if rng.random() < 0.15:
-            ifc = str(rng.randint(0, 8))
+            ifc = str(rng.randint(0, 8)) if rng.random() < 0.7 else num_extreme(rng, 1, 7)
         form = rng.random()
         if form < 0.4:
             return "%s%%%s" % (linklocal(rng), ifc)
         if form < 0.8:
-            return "[%s]:%d%%%s" % (linklocal(rng), port(rng), ifc)
+            return "[%s]:%s%%%s" % (linklocal(rng), port(rng), ifc)
         return "[%s]%%%s" % (linklocal(rng), ifc)
     if c < 0.92:
         # dns:// URI forms as ares_get_server_addr emits them, and near misses
         host = rng.choice([ipv4(rng), "[%s]" % ipv6_text(rng), "[%s%%%s]" % (linklocal(rng), rng.choice(IFACES + ["br-lan"]))])
         t = "dns://%s" % host
         if rng.random() < 0.8:
-            t += ":%d" % rng.choice([53, 5353, 1, 65535, 0])
+            t += ":%s" % (num_extreme(rng, 1, 65535) if rng.random() < 0.2 else rng.choice([53, 5353, 1, 65535, 0]))
         if rng.random() < 0.7:
-            t += "?tcpport=%d" % rng.choice([53, 54, 5353, 65535, 0, 70000])
+            t += "?tcpport=%s" % (num_extreme(rng, 1, 65535) if rng.random() < 0.25 else rng.choice([53, 54, 5353, 65535, 0, 70000]))
         return t
     if valid_only:
         return ipv4(rng)
@@ -155,18 +196,25 @@ def sort_pattern(rng):
     c = rng.random()
     if c < 0.3:
         return ipv4(rng)
-    if c < 0.55:
+    if c < 0.45:
         return "%s/%d" % (ipv4(rng), rng.choice([0, 1, 8, 16, 24, 31, 32, 33, 128, 129]))
+    if c < 0.55:
+        return "%s/%s" % (ipv4(rng), num_extreme(rng, 0, 32))
     if c < 0.7:
         return "%s/%s" % (ipv4(rng), rng.choice(["255.0.0.0", "255.255.0.0", "255.255.255.0", "255.255.255.255", "0.0.0.0", "255.255", "255.0.255.0", "1.2.3.4.5"]))
-    if c < 0.85:
+    if c < 0.78:
         return "%s/%d" % (ipv6_text(rng), rng.choice([0, 10, 64, 127, 128, 129]))
+    if c < 0.85:
+        return "%s/%s" % (ipv6_text(rng), num_extreme(rng, 0, 128))
     if c < 0.92:
         return ipv6_text(rng)
     return rng.choice(["1.2.3.4/", "/8", "1.2.3.4/08", "1.2.3.4/8x", "1.2.3.4/99999999999", "1.2.3.4/4294967304", "junk", "1.2.3.4/255.255.255.255.255", "1.2.3.4/1234567890123456", "fe80::/10"])
 
 
 def option_token(rng):
+    if rng.random() < 0.15:
+        name, lo, hi = rng.choice([("ndots", 0, 15), ("timeout", 1, 30), ("retrans", 1, 30), ("attempts", 1, 5), ("retry", 1, 5)])
+        return "%s:%s" % (name, num_extreme(rng, lo, hi))
     c = rng.random()
     if c < 0.22:
         return "ndots:%s" % rng.choice(["0", "1", "2", "5", "14", "15", "16", "100", "255", "4294967295", "4294967296", "99999999999999999999"])
@@ -217,7 +265,7 @@ def valid_resolv_lines(rng):
 
 
 JUNK_CLASSES = ["comment", "blank", "unknown-keyword", "no-argument", "unprintable", "overlong", "nameserver-tokens",
-                "sortlist-token", "options-plain", "options-numeric", "search-empty", "lookup-noword", "binary"]
+                "sortlist-token", "sortlist-mask", "options-plain", "options-numeric", "search-empty", "lookup-noword", "binary"]
 
 
 def junk_line(rng, cls):
@@ -240,11 +288,24 @@ def junk_line(rng, cls):
         return "nameserver " + rng.choice(["junk", "none", "localhost", "ns1.example.com", "# 6.6.6.6", "%eth0", "/24", "-1", "x6.6.6.6", "junk1 junk2,junk3", "\"6.6.6.6\"", "*", "g::1"])
     if cls == "sortlist-token":
         return "sortlist " + rng.choice(["junk", "junk 10.0.0.0/8", "/8 10.0.0.0/8", "x1.2.3.4", "net/8", "*", ";", "; ;", ";;;"])
+    if cls == "sortlist-mask":
+        # an entry whose numeric prefix length is no prefix length for any family (above 128 or more
+        # than three digits), alone or among valid entries
+        bad = "%s/%s" % (rng.choice([ipv4(rng), "10.0.0.0", ipv6_text(rng), "2001:db8::"]),
+                         rng.choice(["129", "255", "256", "264", "288", "300", "384", "520", "640", "792", "896", "999", "1000", "0264", "4294967304",
+                                     str(2 ** 64 + 8), num_extreme(rng, 129, 999, digits_only=True).lstrip("0") or "999"]))
+        if not bad.rsplit("/", 1)[1].isdigit() or (len(bad.rsplit("/", 1)[1]) <= 3 and int(bad.rsplit("/", 1)[1]) <= 128):
+            bad = bad.rsplit("/", 1)[0] + "/264"
+        ents = [rng.choice(["10.0.0.0/8", "192.168.0.0/255.255.0.0", "172.16.0.0/12", "2001:db8::/32", "1.2.3.4"]) for _ in range(rng.choice([0, 0, 1, 2]))]
+        ents.insert(rng.randint(0, len(ents)), bad)
+        return "sortlist " + rng.choice([" ", ";", "  "]).join(ents)
     if cls == "options-plain":
         return "options " + " ".join(rng.choice(["edns0", "trust-ad", "single-request", "no-aaaa", "inet6", "debug", "Rotate", "ROTATE", "use_vc", "ndot"]) for _ in range(rng.randint(1, 3)))
     if cls == "options-numeric":
         return "options " + " ".join(rng.choice(["timeout:0", "attempts:0", "retry:0", "retrans:0", "timeout:", "timeout", "attempts", "attempts:x", "timeout:abc", "timeout:5x",
-                                                 "ndots:abc", "ndots", "ndots:", "ndots:-1", "ndots:5x", "timeout:-1", "timeout:00", "unknown:5"]) for _ in range(rng.randint(1, 2)))
+                                                 "ndots:abc", "ndots", "ndots:", "ndots:-1", "ndots:5x", "timeout:-1", "timeout:00", "unknown:5",
+                                                 "ndots:+3", "ndots:4294967299", "ndots:0000000003", "ndots:18446744073709551619", "timeout:4294967301", "timeout:+5",
+                                                 "attempts:4294967299", "attempts:-4294967293", "retry:18446744073709551619", "timeout:" + "9" * 300]) for _ in range(rng.randint(1, 2)))
     if cls == "search-empty":
         return rng.choice(["search ,", "search , ,", "domain ,", "search ,,,"])
     if cls == "lookup-noword":
@@ -272,7 +333,7 @@ def user_options(rng, dense=False):
         p.append("flags=%d" % rng.choice([0, 0x100, 0x110, 0x1, 0x101, 0x2, 0x102, 0x10, 0x400, 0x7ff, 0x120, 0x140, 0x300, 0x200 if rng.random() < 0.2 else 0x100]))
     c = rng.random()
     if c < pr * 0.55:
-        p.append("timeoutms=%d" % rng.choice([1, 250, 1234, 2000, 5000, 2147483647, 0, -1]))
+        p.append("timeoutms=%d" % (int_extreme(rng, 1, 5000) if rng.random() < 0.25 else rng.choice([1, 250, 1234, 2000, 5000, 2147483647, 0, -1])))
     elif c < pr * 0.95:
         p.append("timeout=%d" % rng.choice([1, 2, 5, 30, 2147483, 2147484, 3000000, 4294967, 4294968, 2147483647, 0, -1]))
     elif c < pr:
@@ -280,25 +341,25 @@ def user_options(rng, dense=False):
         v = rng.choice([1, 5, 2147484, 0, -1])
         p.append("timeoutms=%d&timeout=%d" % (v, v))
     if rng.random() < pr:
-        p.append("tries=%d" % rng.choice([1, 2, 3, 5, 100, 2147483647, 0, -1]))
+        p.append("tries=%d" % (int_extreme(rng, 1, 5) if rng.random() < 0.25 else rng.choice([1, 2, 3, 5, 100, 2147483647, 0, -1])))
     if rng.random() < pr:
-        p.append("ndots=%d" % rng.choice([0, 1, 2, 3, 15, 16, 100, 2147483647, -1]))
+        p.append("ndots=%d" % (int_extreme(rng, 0, 15) if rng.random() < 0.25 else rng.choice([0, 1, 2, 3, 15, 16, 100, 2147483647, -1])))
     if rng.random() < pr * 0.6:
-        p.append("maxtimeout=%d" % rng.choice([1, 5000, 2147483647, 0, -5]))
+        p.append("maxtimeout=%d" % (int_extreme(rng, 1, 5000) if rng.random() < 0.25 else rng.choice([1, 5000, 2147483647, 0, -5])))
     if rng.random() < pr * 0.6:
         p.append(rng.choice(["rotate=1", "norotate=1", "rotate=1&norotate=1"]))
     if rng.random() < pr:
-        p.append("udp=%d" % rng.choice([53, 5353, 1, 65535, 0]))
+        p.append("udp=%d" % rng.choice([53, 5353, 1, 65535, 0, 255, 256, 257, 32767, 32768, 65534]))
     if rng.random() < pr:
-        p.append("tcp=%d" % rng.choice([53, 5353, 1, 65535, 0, 54]))
+        p.append("tcp=%d" % rng.choice([53, 5353, 1, 65535, 0, 54, 255, 256, 309, 32768, 65534]))
     if rng.random() < pr * 0.5:
-        p.append("sndbuf=%d" % rng.choice([1, 4096, 2147483647, 0, -1]))
+        p.append("sndbuf=%d" % (int_extreme(rng, 1, 4096) if rng.random() < 0.25 else rng.choice([1, 4096, 2147483647, 0, -1])))
     if rng.random() < pr * 0.5:
-        p.append("rcvbuf=%d" % rng.choice([1, 4096, 2147483647, 0, -1]))
+        p.append("rcvbuf=%d" % (int_extreme(rng, 1, 4096) if rng.random() < 0.25 else rng.choice([1, 4096, 2147483647, 0, -1])))
     if rng.random() < pr * 0.6:
-        p.append("ednspsz=%d" % rng.choice([512, 1232, 4096, 65535, 0, -1]))
+        p.append("ednspsz=%d" % (int_extreme(rng, 512, 4096) if rng.random() < 0.25 else rng.choice([512, 1232, 4096, 65535, 0, -1])))
     if rng.random() < pr * 0.6:
-        p.append("udpmaxq=%d" % rng.choice([1, 100, 2147483647, 0, -1]))
+        p.append("udpmaxq=%d" % (int_extreme(rng, 1, 100) if rng.random() < 0.25 else rng.choice([1, 100, 2147483647, 0, -1])))
     if rng.random() < pr * 0.6:
         p.append("qcache=%d" % rng.choice([0, 1, 3600, 4294967295]))
     if rng.random() < pr * 0.6:
@@ -354,8 +415,14 @@ def gen_rc(rng):
     mode = rng.random()
     if mode < 0.6:
         cls = rng.choice(JUNK_CLASSES)
-        for _ in range(rng.choice([1, 1, 2, 4])):
-            us.insert(rng.randint(0, len(us)), "J" + hx(junk_line(rng, cls)))
+        if cls.startswith("sortlist") and rng.random() < 0.7:
+            # the junk line comes after a valid sortlist line, whose sortlist must survive
+            us.insert(0, "L" + hx("sortlist " + rng.choice(["10.0.0.0/8", "192.168.0.0/255.255.0.0 172.16.0.0/12", "2001:db8::/32;10.1.0.0/16"]) + ("\r" if crlf else "")))
+            for _ in range(rng.choice([1, 1, 2])):
+                us.insert(rng.randint(1, len(us)), "J" + hx(junk_line(rng, cls)))
+        else:
+            for _ in range(rng.choice([1, 1, 2, 4])):
+                us.insert(rng.randint(0, len(us)), "J" + hx(junk_line(rng, cls)))
     elif mode < 0.7:
         for _ in range(rng.randint(1, 5)):
             us.insert(rng.randint(0, len(us)), "J" + hx(junk_line(rng, rng.choice(JUNK_CLASSES))))
@@ -440,14 +507,22 @@ def gen_fn(rng):
     if c < 0.2:
         return "fn,f=addr|X" + hx(addr_text(rng))
     c = rng.random()
+    if c < 0.08:
+        # one numeric option with an extreme value: judged against the documentation alone
+        name, lo, hi = rng.choice([("ndots", 0, 15), ("timeout", 1, 30), ("retrans", 1, 30), ("attempts", 1, 5), ("retry", 1, 5)])
+        return "fn,f=setopt|X" + hx("%s:%s" % (name, num_extreme(rng, lo, hi, digits_only=rng.random() < 0.7)))
     if c < 0.3:
         s = rng.choice([" ", "  ", "\t"]).join(option_token(rng) for _ in range(rng.randint(0, 6)))
         if rng.random() < 0.1:
             s = junk_line(rng, "binary").replace("\x00", "\x01")
         return "fn,f=setopt|X" + hx(s)
     if c < 0.55:
-        s = rng.choice([" ", ";", "  ", " ; "]).join(sort_pattern(rng) for _ in range(rng.randint(0, 5)))
-        return "fn,f=sortlist|X" + hx(s)
+        if rng.random() < 0.3:
+            s = junk_line(rng, rng.choice(["sortlist-mask", "sortlist-mask", "sortlist-token"]))[len("sortlist "):]
+        else:
+            s = rng.choice([" ", ";", "  ", " ; "]).join(sort_pattern(rng) for _ in range(rng.randint(0, 5)))
+        # ares_parse_sortlist directly, or ares_set_sortlist() on a channel that has a sortlist
+        return "fn,f=%s|X%s" % (rng.choice(["sortlist", "setsort"]), hx(s))
     if c < 0.9:
         s = csv_servers(rng)
         if rng.random() < 0.1:
